@@ -41,6 +41,25 @@ class NotInlinable(Exception):
     pass
 
 
+def _as_expression(body, depth=0):
+    """the expression a body of nothing but returns and two-way tests evaluates to, or None"""
+    if not body or depth > 4:
+        return None
+    st = body[0]
+    if isinstance(st, ast.Return) and st.value is not None and len(body) == 1:
+        return st.value
+    if isinstance(st, ast.If):
+        a = _as_expression(st.body, depth + 1)
+        rest = st.orelse if st.orelse else body[1:]
+        if st.orelse and body[1:]:
+            return None
+        b = _as_expression(rest, depth + 1)
+        if a is None or b is None:
+            return None
+        return ast.copy_location(ast.IfExp(test=st.test, body=a, orelse=b), st)
+    return None
+
+
 # ---------------------------------------------------------------------------
 
 def _own_nodes(func):
@@ -124,8 +143,10 @@ class _Helper:
         self.body = _strip_doc(node.body)
         self.stored = _stored_names(node)
         self.loads = {n.id for n in _all_nodes(node) if isinstance(n, ast.Name) and isinstance(n.ctx, ast.Load)}
-        self.single_expr = (len(self.body) == 1 and isinstance(self.body[0], ast.Return)
-                            and self.body[0].value is not None)
+        # a body made of ``if c: return a`` guards and a final ``return b`` is the conditional
+        # expression ``a if c else b``
+        self.expr = _as_expression(self.body)
+        self.single_expr = self.expr is not None
         # names the helper's own closures (lambdas, nested functions, comprehensions aside) capture:
         # each call has its own cell for them, so an inlined copy needs its own variable
         self.captured = set()
@@ -557,7 +578,7 @@ class _ExprInliner(ast.NodeTransformer):
             return node
         if prelude:
             return node
-        e = _Subst(mapping, rename).visit(copy.deepcopy(h.body[0].value))
+        e = _Subst(mapping, rename).visit(copy.deepcopy(h.expr))
         self.count += 1
         h.inlined += 1
         return ast.copy_location(e, node)
@@ -812,8 +833,15 @@ def inline_new_module_constants(tree, short, baseline=None):
             nm, v = st.targets[0].id, st.value
             if '%s.%s' % (short, nm) in baseline:
                 continue
-            def simple(e):
-                return isinstance(e, (ast.Name, ast.Constant)) or (isinstance(e, ast.Attribute) and simple(e.value))
+            def simple(e, depth=0):
+                if isinstance(e, (ast.Name, ast.Constant)) or (isinstance(e, ast.Attribute) and simple(e.value, depth)):
+                    return True
+                # rows of a table: displays of simple values
+                if depth < 2 and isinstance(e, ast.Tuple):
+                    return all(simple(x, depth + 1) for x in e.elts)
+                if depth < 2 and isinstance(e, ast.Dict):
+                    return all(k is not None and simple(k, depth + 1) for k in e.keys) and all(simple(x, depth + 1) for x in e.values)
+                return False
             if isinstance(v, ast.Tuple) and v.elts and all(simple(e) for e in v.elts) and len(v.elts) <= 40:
                 cands[nm] = v
             elif isinstance(v, ast.Dict) and v.keys and all(k is not None and simple(k) for k in v.keys) \
